@@ -422,6 +422,15 @@ impl<'a> Interp<'a> {
                 }
                 Item::Include { file, style } => {
                     if self.ignore_include {
+                        // nothing is read; a file name that comes out of a macro is still expanded text
+                        if let IncStyle::ViaMacro(m) = style {
+                            let origin = match self.table.get(m) {
+                                Some(Some(d)) => d.origin.as_ref().map(|(f, b, _)| (f.clone(), *b)),
+                                _ => None,
+                            };
+                            let text = self.expand_usage(m, None, 1, path)?;
+                            self.out.push(Piece { text, prov: Prov::Expansion(origin) });
+                        }
                         continue;
                     }
                     let name = match style {
